@@ -97,6 +97,19 @@ def plan(b, seed, per_valid, cap):
                         "caller_md": k % 2 == 1}  # every second caller already has outgoing metadata in its context
                 cmds.append(base)
                 meta.append((s, m, "both", "valid", p, res))
+                # the same exchange with the OneOf unions of payload and result filled in (round trip only: the validation
+                # specification has no unions, the mutations below start from the values without them)
+                if has_union(b.schema, m.get("payload")) or has_union(b.schema, m.get("result")):
+                    e2e.UNIONS = True
+                    try:
+                        rng2 = e2e.rng_for(seed, "c10u", b.index, s["name"], m["name"], k)
+                        pu = (e2e.gen_object(b.schema, m["payload"], rng2, "body", 0, {}) if pobj else e2e.gen_value(b.schema, m["payload"], rng2, "body")) if m.get("payload") else None
+                        ru = e2e.gen_value(b.schema, m["result"], rng2, "body") if m.get("result") else None
+                    finally:
+                        e2e.UNIONS = False
+                    if (pu is not None or not m.get("payload")) and (ru is not None or not m.get("result")):
+                        cmds.append(dict(base, payload=pu, script={"result": ru}))
+                        meta.append((s, m, "both", "valid-with-unions", pu, ru))
                 if pobj:
                     for label, mp in c04.mutations(b.schema, m["payload"], p, {}, rng, cap):
                         cmds.append(dict(base, payload=mp))
@@ -316,7 +329,7 @@ def run_roundtrip(c, n, per_valid, cap):
         "harness/cmd/miniprotoc stands in for protoc + protoc-gen-go + protoc-gen-go-grpc (Go structs with protoc-gen-go's field naming, optional scalars as pointers, "
         "oneof wrappers, classic service code); harness/e2ert/grpc.go replaces protobuf marshalling by a table of deep copies (empty repeated fields, maps and byte "
         "strings become absent, as on the protobuf wire); transport, metadata, status codes are the real google.golang.org/grpc",
-        "union values are generated and compiled but not driven; methods with non-object array/map payloads are not driven; in a streaming exchange the client sends all its messages, closes its side and then reads (no interleaved schedules)",
+        "OneOf union values are driven for the round trip only (the validation specification has no unions); methods with non-object array/map payloads are not driven; in a streaming exchange the client sends all its messages, closes its side and then reads (no interleaved schedules)",
     ]
     if not (install_protoc(c) and c.lake_build("drv_valid", what="tie")):
         return
